@@ -4,7 +4,7 @@
    op_ok o  :=  match o with OSet kt _ => kt <> [] | _ => True end
    (no assignment through the empty tuple; see the counterexamples below). *)
 From Coq Require Import List Bool Arith Sorted.
-From AL Require Import Base.CaseLib C15.Model C15.Spec C15.Check C15.Proofs.
+From AL Require Import Base.CaseLib C15.Model C15.Spec C15.Check C15.Proofs C15.Proofs_Multi.
 Import ListNotations.
 
 (* the boolean checker of the case files is the Prop used below *)
@@ -215,3 +215,73 @@ Proof.
   apply (WF_after true).
 Qed.
 Print Assumptions C15_nonvacuous_round2.
+
+(* ---- round 3: several objects, some built from others *)
+(* mop_ok m := match m with MOn _ o => op_ok o | _ => True end;
+   hobs_ok o s := fst o = fst s /\ Forall2 view_ok (snd o) (snd s)  (flag of the step, views of ALL objects) *)
+Theorem C15_hobs_okb_true_iff : forall o s, hobs_eqb view_okb o s = true <-> hobs_ok o s.
+Proof. exact hobs_okb_true_iff. Qed.
+Print Assumptions C15_hobs_okb_true_iff.
+
+(* MultiKeyDict(other) - replaying the stored (key tuple, value) items on a fresh object - represents the
+   abstract map of the source as it is at that moment *)
+Theorem C15_cast_coherent : forall d a, Coherent d a -> Coherent (mkd_cast d) (acopy a).
+Proof. exact cast_coherent. Qed.
+Print Assumptions C15_cast_coherent.
+
+(* every history over any number of MultiKeyDict / StrategyDict objects, fresh or built from existing ones:
+   after every step every object shows the view of its own abstract map *)
+Theorem C15_multi_refines : forall ks vs ms, Forall mop_ok ms ->
+  Forall2 hobs_ok (hrun ks vs [] ms) (ahrun ks vs [] ms).
+Proof. exact multi_refines. Qed.
+Print Assumptions C15_multi_refines.
+
+(* independence after construction *)
+Theorem C15_objects_independent : forall h ah i j o, i <> j ->
+  nth_error (fst (hstep h (MOn i o))) j = nth_error h j /\
+  nth_error (fst (ahstep ah (MOn i o))) j = nth_error ah j.
+Proof. exact objects_independent. Qed.
+Print Assumptions C15_objects_independent.
+
+Theorem C15_construction_keeps_others : forall h ah m j,
+  (forall i o, m <> MOn i o) -> j < length h -> j < length ah ->
+  nth_error (fst (hstep h m)) j = nth_error h j /\ nth_error (fst (ahstep ah m)) j = nth_error ah j.
+Proof. exact construction_keeps_others. Qed.
+Print Assumptions C15_construction_keeps_others.
+
+Theorem C15_copy_has_the_view : forall ks vs a e,
+  let v := aview false ks vs (acopy a) e in let w := aview false ks vs a e in
+  v_get v = v_get w /\ v_k2k v = v_k2k w /\ v_v2k v = v_v2k w /\ v_len v = v_len w /\
+  v_keys v = v_keys w /\ v_iter v = v_iter w.
+Proof. exact copy_has_the_view. Qed.
+Print Assumptions C15_copy_has_the_view.
+
+(* non-vacuity: a StrategyDict, a MultiKeyDict built from it, then both change in different ways *)
+Example C15_nonvacuous_multi :
+  let ks := [1; 2] in let vs := [7; 8] in
+  let ms := [MNew true; MOn 0 (OSet [1; 2] 7); MCast 0; MOn 1 (OSet [2] 8); MOn 0 (ODel 1); MCast 1] in
+  Forall mop_ok ms /\
+  map (fun st => map v_get (snd st)) (hrun ks vs [] ms) =
+    [ [[None; None]]; [[Some 7; Some 7]]; [[Some 7; Some 7]; [Some 7; Some 7]];
+      [[Some 7; Some 7]; [Some 7; Some 8]]; [[None; Some 7]; [Some 7; Some 8]];
+      [[None; Some 7]; [Some 7; Some 8]; [Some 7; Some 8]] ] /\
+  map (fun st => map v_get (snd st)) (ahrun ks vs [] ms) = map (fun st => map v_get (snd st)) (hrun ks vs [] ms) /\
+  map (fun st => map v_k2k (snd st)) (ahrun ks vs [] ms) = map (fun st => map v_k2k (snd st)) (hrun ks vs [] ms).
+Proof.
+  cbv zeta. split; [repeat constructor; discriminate|].
+  split; [vm_compute; reflexivity|]. split; vm_compute; reflexivity.
+Qed.
+Print Assumptions C15_nonvacuous_multi.
+
+(* the user-chosen default takes part in the refinement: chosen by hand, dropped with its last name, re-chosen *)
+Example C15_nonvacuous_user_default :
+  let ops := [OSet [1] 7; OSet [2] 8; OSetDefault 8; ODel 2; OSet [2] 8; ODelDefault; ODelDefault; OSet [1] 7] in
+  Forall op_ok ops /\
+  map v_default (srun [1; 2] [7; 8] sd_empty ops) = [Some 7; Some 7; Some 8; None; Some 8; None; None; Some 7] /\
+  map v_raised (srun [1; 2] [7; 8] sd_empty ops) = [false; false; false; false; false; false; true; false] /\
+  map v_default (arun true [1; 2] [7; 8] ainit ops) = map v_default (srun [1; 2] [7; 8] sd_empty ops).
+Proof.
+  cbv zeta. split; [repeat constructor; discriminate|].
+  split; [vm_compute; reflexivity|]. split; vm_compute; reflexivity.
+Qed.
+Print Assumptions C15_nonvacuous_user_default.
